@@ -15,5 +15,5 @@ Extraction "model.ml"
   mk_cgroup elem_from_index elem_from_parent lower_bound_opt
   build find_cell find_leaf cg_find cg_find_parent pg_find
   locate1 locate1_ndebug full_remote full_mutual inner sf_ops sf_of_bits bits_of_sf
-  count_trace merge_counters reduce execute execute_tsm periodic_run repetition_interval nb_repetitions export_get rebuild
+  count_trace merge_counters reduce execute execute_tsm periodic_run periodic_run_tsm repetition_interval nb_repetitions export_get rebuild
   reset init_header elem_offset offsets total mb_empty rows_of elem_size block_bytes.
